@@ -68,6 +68,7 @@ pub struct Runner {
 impl Runner {
     pub fn new(prop: &str, tier: &str, level: &str) -> Self {
         mccore::panics::install();
+        mccore::panics::set_subject(prop, verif_root().to_str().unwrap_or("/verif"));
         mccore::selftest::run();
         let mut known = vec![];
         let kf = verif_root().join("known_findings.json");
